@@ -382,7 +382,7 @@ PROPS = {
         assumptions=[],
     ),
     "C07": dict(
-        modules=["Drpc.Props.C07", "Drpc.Props.Manager", "Drpc.Props.ManagerSys", "Drpc.Props.Compose", "Drpc.Tie.C03", "Drpc.Tie.Manager"],
+        modules=["Drpc.Props.C07", "Drpc.Props.Manager", "Drpc.Props.ManagerSys", "Drpc.Props.Compose", "Drpc.Props.ComposeManager", "Drpc.Tie.C03", "Drpc.Tie.Manager"],
         suites=["stream", "e2e"],
         rule="stream suite: every completed transport write of a real Stream (sequential and parked histories incl. parked Marshal, "
              "failing writes, concurrent terminal calls) is parsed by the independent Go reference parser: whole frames, ids "
